@@ -297,3 +297,59 @@ func sameName(a, b ssa.Value) bool {
 	}
 	return false
 }
+
+// ---- additional necessary condition found by the third round of seeded changes ----
+
+func init() {
+	reg := registry["C02"]
+	reg.Meta.Rules["C02.6"] = "attribute write paths take the current attributes from the header's message list; the parse-time snapshot ObjectHeader.Attributes is read by reader functions only"
+	reg.Rules = append(reg.Rules, func(c *Ctx, r *Result) {
+		// write API roots
+		var roots []*ssa.Function
+		for _, tn := range []string{"FileWriter", "DatasetWriter", "GroupWriter"} {
+			if nt := c.NamedType(nil, "hdf5", tn); nt != nil {
+				roots = append(roots, c.ExportedMethods(nt)...)
+			}
+		}
+		if len(roots) < 10 {
+			r.Errorf("C02.6: only %d write API entry points found", len(roots))
+			return
+		}
+		reach := c.Reach(roots, func(f *ssa.Function) bool { return !inModule(fnPkgPath(f)) })
+		nReaders, nWrite := 0, 0
+		for _, fn := range c.LibFuncs() {
+			var loads []ssa.Instruction
+			instrs(fn, func(in ssa.Instruction) {
+				if ld, ok := in.(*ssa.UnOp); ok && ld.Op == token.MUL {
+					if fa, ok := ld.X.(*ssa.FieldAddr); ok {
+						if f, base := fieldOfAddr(fa); f != nil && fieldKey(base.Type(), f) == "core.ObjectHeader.Attributes" {
+							loads = append(loads, in)
+						}
+					}
+				}
+			})
+			if len(loads) == 0 {
+				continue
+			}
+			// functions that are part of the read API (or only reachable from it) may use the snapshot
+			if !reach[fn] {
+				nReaders++
+				r.Hold("C02.6", c.Name(fn)+"#snapshot-read-by-reader", c.InstrPos(loads[0]), "reader-side use of the parsed attribute list")
+				continue
+			}
+			// reachable from the write API: allowed only if the function is also a read API method (shared helper)
+			name := c.Name(fn)
+			if strings.HasPrefix(name, "hdf5.Group.") || strings.HasPrefix(name, "hdf5.Dataset.") || strings.HasPrefix(name, "hdf5.File.") || name == "core.ReadObjectHeader" {
+				nReaders++
+				r.Hold("C02.6", name+"#snapshot-read-by-reader", c.InstrPos(loads[0]), "read API method")
+				continue
+			}
+			nWrite++
+			r.Viol("C02.6", name+"#write-path-reads-parse-time-snapshot", c.InstrPos(loads[0]), "a function on the attribute write path uses ObjectHeader.Attributes, the list filled when the header was parsed; writes, overwrites and deletes of the session edit ObjectHeader.Messages only, so the snapshot is stale on a cached header")
+		}
+		if nReaders == 0 {
+			r.Errorf("C02.6: no reader of ObjectHeader.Attributes found (the field or its readers were renamed)")
+		}
+		r.Floor("C02.6", 1)
+	})
+}
